@@ -93,8 +93,9 @@ def candidates(rec: dict, rnd: random.Random, per_kind: int):
     opens = {seps[j]: seps[j + 1] for j in range(0, len(seps) - 1, 2)}
     closes = set(seps[1::2])
     struct = [i for i in range(1, n + 1) if i in toks and toks[i]["type"] in STRUCT]
+    rejected = [e["line"] for e in rec["errs"] if e["kind"] == "unexpected"]
     pick = lambda xs: rnd.sample(xs, min(per_kind, len(xs)))  # noqa: E731
-    for i in pick(struct):
+    for i in pick(struct) + pick(rejected):      # (for rejected lines the spec decides whether the line is a keyword line by its own kind)
         out.append(dict(t="trail", i=i, n=rnd.choice([1, 3]), k=0, c=rnd.choice([32, 9])))
     for i in pick([i for i in struct if i not in closes]):
         if toks[i]["type"] == "DocStringSeparator":
